@@ -12,8 +12,11 @@
    Steps: the wire models expose fuel, not a step counter; C02_walker_steps_partial bounds the
    steps of a step-counting skeleton of the recursive walkers for EVERY head parser that makes
    progress; C02_msgpack_walker_steps instantiates it with the head parser of the msgpack skip
-   walker and proves that the instance computes the msgpack wire model's skip (the other formats
-   are not instantiated).
+   walker and proves that the instance computes the msgpack wire model's skip; likewise
+   C02_simple_walker_steps, C02_binc_walker_steps (the symbol table projected away: it does not steer
+   the walker) and C02_cbor_walker_steps (tags = one-value containers, indefinite lengths with the
+   break byte, the chunk loop of indefinite strings inside the leaf; equal to the model's skip up to
+   one characterised error-class difference, C02_cbor_walker_exact_refuted).
    json (C02_json_terminates, C02_only_recoverable_json, assembled in C02/JsonBridge.v from
    Wire/JsonTotal.v / JsonProofs.v / JsonLeaf.v): the same fuel, for every leaf implementation with a
    total string decoder and in particular for C09's string code (the leaf the Wjson correspondence runs).
@@ -25,6 +28,7 @@ From Verif Require Wire.Cbor Wire.Msgpack Wire.Simple Wire.Binc Wire.Json.
 From Verif Require Import C02.Bridge C02.Alloc C02.AllocProofs C02.Steps C02.StepsProofs.
 From Verif Require Wire.JsonTotal Wire.JsonLeaf C02.JsonBridge.
 From Verif Require C02.StepsMsgpack.
+From Verif Require Wire.SimpleTotal C02.StepsSimple C02.StepsBinc C02.StepsCbor.
 From Verif Require Base.Word Gen.Leaf2 C02.LeafTie.
 Import ListNotations.
 
@@ -241,6 +245,134 @@ Example C02_msgpack_steps_nonvacuous :
   walk (StepsMsgpack.mp_head D) StepsMsgpack.mp_break (StepsMsgpack.mp_depth_ok (Msgpack.mkdopts true false false 2)) 40 0
        [146; 129; 1; 145; 192; 161; 97; 7]%N = (Err EDepth, 3%nat) /\
   snd (w (N.to_nat 9000%N) 0%Z (repeat 145%N (N.to_nat 4000%N))) = 2047%nat.
+Proof. vm_compute. repeat apply conj; reflexivity. Qed.
+
+(* the skeleton instantiated for simple: head parser = the descriptor switch of the simple walker as
+   the wire model Wire/Simple.v has it (sclassify / skip_head; a leaf is consumed by the model's own
+   skipv; non-empty array of n: SSeq n; non-empty map of n pairs: SSeq (2n); an EMPTY container is a
+   leaf, the model does no depthIncr for it), no break byte, depth policy depthIncr.  For EVERY option
+   vector, entry depth and input: (1) with fuel >= 2*dec_fuel b + 1 the instance returns exactly the
+   rest of input / the error class of the wire model's walker nvb entered at depth d0 on b (at d0 = 0
+   this is Simple.skip: C02_simple_steps_nonvacuous); (2) with ANY fuel at most 4 * length b + 2 steps. *)
+Theorem C02_simple_walker_steps : forall (D : Simple.dopts) (d0 : Z) (b : list N),
+  (forall F, (2 * Simple.dec_fuel b + 1 <= F)%nat ->
+     fst (walk (StepsSimple.sp_head D) StepsSimple.sp_break (StepsSimple.sp_depth_ok D) F d0 b)
+       = (do (_, z) <- Simple.nvb D (Simple.dec_fuel b) d0 (Simple.rd_init b) ;; Ok (Simple.suf z))) /\
+  (forall F, (snd (walk (StepsSimple.sp_head D) StepsSimple.sp_break (StepsSimple.sp_depth_ok D) F d0 b) <= 4 * length b + 2)%nat).
+Proof. exact StepsSimple.simple_walker_steps. Qed.
+Print Assumptions C02_simple_walker_steps.
+
+(* the skeleton instantiated for binc: head parser = the descriptor switch of the binc walker
+   (Wire/Binc.v skip: array of n: SSeq n; map of n pairs: SSeq (2n); anything else a leaf consumed by the
+   model's own skip_scalar), no break byte, depth policy depthIncr.  The binc walker threads the symbol
+   table (F11-1: definitions met inside skipped values are recorded); the table does not influence WHERE
+   the walker goes, so the skeleton, which has no state, computes the rest-of-input projection [prj] of
+   the model's outcome from EVERY starting table.  For every option vector with MaxDepth >= 1, entry
+   depth, table and input: (1) from entry depth d0 and (2) for the API entry skip_value, with fuel >=
+   3*fuel_l b + 2 (a map iteration is two skeleton values) the instance returns exactly the model's
+   rest / error class; (3) with ANY fuel and depth at most 4 * length b + 2 steps. *)
+Theorem C02_binc_walker_steps : forall (o : Binc.dopts) (d0 : N) (st : Binc.dstate) (b : list N),
+  (1 <= Binc.maxdepth o)%N ->
+  (forall F, (3 * Binc.fuel_l b + 2 <= F)%nat ->
+     fst (walk StepsBinc.bn_head StepsBinc.bn_break (StepsBinc.bn_depth_ok o) F (Z.of_N d0) b)
+       = StepsBinc.prj (Binc.skip o (Binc.fuel_r o) (Binc.fuel_l b) d0 st b)) /\
+  (forall F, (3 * Binc.fuel_l b + 2 <= F)%nat ->
+     fst (walk StepsBinc.bn_head StepsBinc.bn_break (StepsBinc.bn_depth_ok o) F 0 b)
+       = StepsBinc.prj (Binc.skip_value o st b)) /\
+  (forall (F : nat) (d : Z),
+     (snd (walk StepsBinc.bn_head StepsBinc.bn_break (StepsBinc.bn_depth_ok o) F d b) <= 4 * length b + 2)%nat).
+Proof. exact StepsBinc.binc_walker_steps. Qed.
+Print Assumptions C02_binc_walker_steps.
+
+(* the skeleton instantiated for cbor: head parser = the major-type switch of the cbor walker
+   (Wire/Cbor.v skipw / skip_body: array of n: SSeq n; map of n pairs: SSeq (2n); indefinite-length array /
+   map: SIndef, closed by the break byte 0xff; a TAG: its number, then ONE value one level deeper: SSeq 1 —
+   the model does depthIncr around a tagged value as around container elements; everything else, the whole
+   chunk loop of an indefinite-length string included, a leaf consumed by the model's own skip_body),
+   depth policy depthIncr.  For EVERY option vector, entry depth and input, with fuel >= 2*fuel_for b + 1:
+   (1) the instance's outcome is the wire model's skip outcome up to [tie]: equal, or the model says EDepth
+   where the skeleton says EBadDesc (an array / map head with a RESERVED additional information met at the
+   depth bound: the model, like the code, does depthIncr before it reads the length; the skeleton reads the
+   head first); (2) exactly equal whenever the model's outcome is not the depth error; (3) with ANY fuel at
+   most 4 * length b + 2 steps — tags and indefinite-length chunk loops included. *)
+Theorem C02_cbor_walker_steps : forall (D : Cbor.dopts) (d0 : Z) (b : list N),
+  (forall F, (2 * Cbor.fuel_for b + 1 <= F)%nat ->
+     let m := Cbor.skip D (Cbor.fuel_for b) d0 b in
+     let w := fst (walk (StepsCbor.cb_head D) StepsCbor.cb_break (StepsCbor.cb_depth_ok D) F d0 b) in
+     m = w \/ (m = Err EDepth /\ w = Err EBadDesc)) /\
+  (forall F, (2 * Cbor.fuel_for b + 1 <= F)%nat ->
+     Cbor.skip D (Cbor.fuel_for b) d0 b <> Err EDepth ->
+     fst (walk (StepsCbor.cb_head D) StepsCbor.cb_break (StepsCbor.cb_depth_ok D) F d0 b)
+       = Cbor.skip D (Cbor.fuel_for b) d0 b) /\
+  (forall F, (snd (walk (StepsCbor.cb_head D) StepsCbor.cb_break (StepsCbor.cb_depth_ok D) F d0 b) <= 4 * length b + 2)%nat).
+Proof. exact StepsCbor.cbor_walker_steps. Qed.
+Print Assumptions C02_cbor_walker_steps.
+
+(* the exception in (1) is real: 0x9c (array, additional information 28) at depth MaxDepth - 1 *)
+Theorem C02_cbor_walker_exact_refuted :
+  let D := Cbor.mkdo false false false 0 in
+  forall F, (1 <= F)%nat ->
+    Cbor.skip D (Cbor.fuel_for [156%N]) 1023 [156%N] = Err EDepth /\
+    fst (walk (StepsCbor.cb_head D) StepsCbor.cb_break (StepsCbor.cb_depth_ok D) F 1023 [156%N]) = Err EBadDesc.
+Proof. exact StepsCbor.cbor_walker_exact_refuted. Qed.
+Print Assumptions C02_cbor_walker_exact_refuted.
+
+(* simple: [[{1:[nil]}, "a"], true...: 14 steps, the model's outcome (nvb at depth 0 = Simple.skip); an
+   8-byte-length array head claiming 2^64-1 elements followed by two: 7 steps, then the end of input;
+   MaxDepth 2 refuses the second level after 3 steps; 4000 nested array heads stop at the depth bound *)
+Example C02_simple_steps_nonvacuous :
+  let D := Simple.mkdopts false false 0 in
+  let w := walk (StepsSimple.sp_head D) StepsSimple.sp_break (StepsSimple.sp_depth_ok D) in
+  let v := [233; 2; 241; 1; 8; 1; 233; 1; 1; 217; 1; 97; 3]%N in
+  w 60%nat 0%Z v = (Ok [3%N], 14%nat) /\
+  (do (_, z) <- Simple.nvb D (Simple.dec_fuel v) 0 (Simple.rd_init v) ;; Ok (Simple.suf z)) = Ok [3%N] /\
+  Simple.skip D (Simple.dec_fuel v) v = Ok [3%N] /\
+  (forall fuel b, (do (_, z) <- Simple.nvb D fuel 0 (Simple.rd_init b) ;; Ok (Simple.suf z)) = Simple.skip D fuel b) /\
+  w 60%nat 0%Z [236; 255; 255; 255; 255; 255; 255; 255; 255; 1; 1]%N = (Err EEof, 7%nat) /\
+  walk (StepsSimple.sp_head D) StepsSimple.sp_break (StepsSimple.sp_depth_ok (Simple.mkdopts false false 2)) 60 0 v = (Err EDepth, 3%nat) /\
+  (do (_, z) <- Simple.nvb (Simple.mkdopts false false 2) (Simple.dec_fuel v) 0 (Simple.rd_init v) ;; Ok (Simple.suf z)) = Err EDepth /\
+  w (N.to_nat 9000%N) 0%Z (concat (repeat [233; 1]%N (N.to_nat 4000%N))) = (Err EDepth, 2047%nat).
+Proof. cbv zeta. repeat apply conj; try (vm_compute; reflexivity). Qed.
+
+(* binc: a nested value, 14 steps; a value that DEFINES symbol 1 and then uses it: the model records it, the
+   walk's end does not depend on the starting table; a head claiming 2^64-1 elements; MaxDepth 2; 4000 heads *)
+Example C02_binc_steps_nonvacuous :
+  let D := Binc.Build_dopts 1024 false false in
+  let D2 := Binc.Build_dopts 2 false false in
+  let w := walk StepsBinc.bn_head StepsBinc.bn_break (StepsBinc.bn_depth_ok D) in
+  let v := [102; 117; 144; 101; 0; 69; 97; 2]%N in
+  let vs := [102; 180; 1; 2; 97; 98; 176; 1; 2]%N in
+  w 60%nat 0%Z v = (Ok [2%N], 14%nat) /\
+  Binc.skip_value D Binc.dstate0 v = Ok (tt, [2%N], Binc.dstate0) /\
+  w 60%nat 0%Z vs = (Ok [2%N], 6%nat) /\
+  Binc.skip_value D Binc.dstate0 vs = Ok (tt, [2%N], [(1%N, [97%N; 98%N])]) /\
+  StepsBinc.prj (Binc.skip_value D [(1, [7; 7; 7])]%N vs) = Ok [2%N] /\
+  w 60%nat 0%Z [99; 255; 255; 255; 255; 255; 255; 255; 255; 0; 0]%N = (Err EEof, 7%nat) /\
+  walk StepsBinc.bn_head StepsBinc.bn_break (StepsBinc.bn_depth_ok D2) 60 0 v = (Err EDepth, 3%nat) /\
+  Binc.skip_value D2 Binc.dstate0 v = Err EDepth /\
+  w (N.to_nat 9000%N) 0%Z (repeat 101%N (N.to_nat 4000%N)) = (Err EDepth, 2047%nat).
+Proof. vm_compute. repeat apply conj; reflexivity. Qed.
+
+(* cbor: [{1:[null]}, "a"], 7...; an indefinite array holding tag 0 of 1, an indefinite byte string of one
+   chunk and an indefinite map {1:2}; a head claiming 2^64-1 elements; a 2-byte length cut short (the
+   deferred end of input, and the depth error when met at the bound); MaxDepth 2; 4000 nested array heads
+   and 4000 nested TAGS both stop at the depth bound after 2047 steps; the [tie] exception *)
+Example C02_cbor_steps_nonvacuous :
+  let D := Cbor.mkdo false false false 0 in
+  let D2 := Cbor.mkdo false false false 2 in
+  let w := walk (StepsCbor.cb_head D) StepsCbor.cb_break (StepsCbor.cb_depth_ok D) in
+  let v := [130; 161; 1; 129; 246; 97; 97; 7]%N in
+  let vi := [159; 192; 1; 95; 65; 9; 255; 191; 1; 2; 255; 255; 7]%N in
+  w 60%nat 0%Z v = (Ok [7%N], 14%nat) /\ Cbor.skip D (Cbor.fuel_for v) 0 v = Ok [7%N] /\
+  w 60%nat 0%Z vi = (Ok [7%N], 15%nat) /\ Cbor.skip D (Cbor.fuel_for vi) 0 vi = Ok [7%N] /\
+  w 60%nat 0%Z [155; 255; 255; 255; 255; 255; 255; 255; 255; 1; 1]%N = (Err EEof, 7%nat) /\
+  w 60%nat 0%Z [153; 0]%N = (Err EEof, 3%nat) /\ Cbor.skip D (Cbor.fuel_for [153; 0]%N) 0 [153; 0]%N = Err EEof /\
+  w 60%nat 1023%Z [153; 0]%N = (Err EDepth, 1%nat) /\ Cbor.skip D (Cbor.fuel_for [153; 0]%N) 1023 [153; 0]%N = Err EDepth /\
+  walk (StepsCbor.cb_head D2) StepsCbor.cb_break (StepsCbor.cb_depth_ok D2) 60 0 v = (Err EDepth, 3%nat) /\
+  Cbor.skip D2 (Cbor.fuel_for v) 0 v = Err EDepth /\
+  w (N.to_nat 9000%N) 0%Z (repeat 129%N (N.to_nat 4000%N)) = (Err EDepth, 2047%nat) /\
+  w (N.to_nat 9000%N) 0%Z (repeat 192%N (N.to_nat 4000%N)) = (Err EDepth, 2047%nat) /\
+  w 60%nat 0%Z [156]%N = (Err EBadDesc, 1%nat) /\ Cbor.skip D (Cbor.fuel_for [156]%N) 0 [156]%N = Err EBadDesc.
 Proof. vm_compute. repeat apply conj; reflexivity. Qed.
 
 (* ------------------------------ non-vacuity ------------------------------ *)
